@@ -441,6 +441,42 @@ func generatedHostile() []seedFile {
 		add(name, classicFile(objs, ""))
 	}
 
+	// interactive forms: three pages with one widget annotation each, and a
+	// catalog /AcroForm (indirect) which the form decoder has to reject or
+	// to survive: wrong type, broken /Fields, /DR, /CO, /Parent cycles
+	widget := func(n int, extra string) string {
+		return fmt.Sprintf("<< /Type /Annot /Subtype /Widget /FT /Tx /T (f%d) /Rect [ 10 10 100 30 ] %s>>", n, extra)
+	}
+	formPage := func(annot int) string {
+		return fmt.Sprintf("<< /Type /Page /Parent 2 0 R /MediaBox [0 0 200 200] /Contents 4 0 R /Resources << /Font << /F1 5 0 R >> >> /Annots [ %d 0 R ] >>", annot)
+	}
+	for _, v := range []struct{ name, form, wextra string }{
+		{"valid", "<< /Fields [ 20 0 R 21 0 R 22 0 R ] /DA (/F1 10 Tf 0 g) /DR << /Font << /F1 5 0 R >> >> >>", ""},
+		{"array", "[ 20 0 R 21 0 R ]", ""},
+		{"integer", "42", ""},
+		{"missing", "", ""},
+		{"stream", streamObj("/Fields [ 20 0 R ]", []byte("x")), ""},
+		{"fields-int", "<< /Fields 7 >>", ""},
+		{"fields-self", "<< /Fields [ 10 0 R 20 0 R [ 21 0 R ] null (x) ] >>", "/Parent 10 0 R "},
+		{"dr-broken", "<< /Fields [ 20 0 R ] /DR 7 /DA 12 >>", ""},
+		{"co-string", "<< /Fields [ 20 0 R 21 0 R ] /CO (x) /NeedAppearances /Yes /SigFlags (3) /XFA 5 >>", ""},
+		{"parent-cycle", "<< /Fields [ 23 0 R ] >>", "/Parent 23 0 R "},
+	} {
+		objs := map[int]string{
+			1: "<< /Type /Catalog /Pages 2 0 R /AcroForm 10 0 R >>",
+			2: "<< /Type /Pages /Count 3 /Kids [ 3 0 R 6 0 R 7 0 R ] >>",
+			3: formPage(20), 4: contentObj, 5: fontObj, 6: formPage(21), 7: formPage(22),
+			20: widget(0, v.wextra), 21: widget(1, v.wextra), 22: widget(2, v.wextra),
+			// a non-terminal field whose /Parent chain runs in a circle
+			23: "<< /T (group) /Kids [ 20 0 R 21 0 R 22 0 R 23 0 R ] /Parent 24 0 R >>",
+			24: "<< /T (outer) /Kids [ 23 0 R ] /Parent 23 0 R >>",
+		}
+		if v.form != "" {
+			objs[10] = v.form
+		}
+		add("hostile-acroform-"+v.name+".pdf", classicFile(objs, ""))
+	}
+
 	// images: a valid 256x256 JPEG as image XObject, and the same data under
 	// filter chains in which DCTDecode is not the top filter and the filter
 	// above it rejects the decoded samples
